@@ -51,3 +51,14 @@ func VerifHalfClosed(p *StreamPool, netFlow, tcpFlow gopacket.Flow) (found, half
 	defer conn.mu.Unlock()
 	return true, half.closed, rev.closed
 }
+
+// VerifPoolStreams lists the streams of the connections currently stored in the pool. The caller
+// must be quiescent (no Assemble or Flush call in progress).
+func VerifPoolStreams(p *StreamPool) (streams []Stream) {
+	p.mu.RLock()
+	defer p.mu.RUnlock()
+	for _, c := range p.conns {
+		streams = append(streams, c.c2s.stream)
+	}
+	return
+}
